@@ -12,6 +12,7 @@ from fvmon import kernels
 from fvmon.observe import WF, RC
 
 SPEC = {
+    "anchors": ["fibertree.core.iterators:__and__", "fibertree.core.iterators:__lshift__", "fibertree.core.iterators:intersection", "fibertree.core.tensor:Tensor.swizzleRanks", "fibertree.core.tensor:Tensor._splitGeneric", "fibertree.core.fiber:Fiber.splitUniform", "fibertree.core.payload:Payload.__iadd__", "fibertree.core.payload:Payload.__mul__"],
     "rule": ("case = one einsum-like expression from 17 families (dot, matrix-vector, matrix-matrix, element-wise, "
              "reductions, transposes, outer product, 3-operand chains, 3-index operands; 1-3 operands, 1-3 index "
              "variables, extents 1-5) with random integer operand values (densities 0-1 incl. empty operands/rows, "
